@@ -36,6 +36,20 @@ impl EventParser {
                 let mut symbols = SymbolTable::new();
                 self.extract_param_types(&func.sig.inputs, &mut symbols);
 
+                // A generic type parameter (fn notify<T: Serialize>(.., payload: T)) names no
+                // type of the project: such a payload is `unknown`
+                for type_param in func.sig.generics.type_params() {
+                    let generic = type_param.ident.to_string();
+                    for declared in symbols.values_mut() {
+                        if declared
+                            .split(|c: char| !(c.is_alphanumeric() || c == '_'))
+                            .any(|word| word == generic)
+                        {
+                            *declared = "unknown".to_string();
+                        }
+                    }
+                }
+
                 // Search within function bodies with symbol context
                 self.extract_events_from_block(
                     &func.block.stmts,
